@@ -67,6 +67,7 @@ import Nexus.Codec.MsgLemmas
 import Nexus.Codec.WireLemmas
 import Nexus.Codec.WpDJsonReal
 import Nexus.Codec.WpDRange
+import Nexus.Codec.WpDBinaryDataProofs
 
 namespace Nexus.C14
 
@@ -1231,6 +1232,139 @@ theorem C14_accept_known_code (fmt : Format) (b : Bytes) (m : Msg)
     (SUBSCRIBED [33, 1, 2]). -/
 example : (match Wire.deserialize .msgpack [0x93, 0x21, 0x01, 0x02] with
     | .ok (.ok m) => m.schema.name == "Subscribed" | _ => false) = true := by decide +kernel
+
+/-! ## JSON floats and binaries (audit C14-a2, a3, a1)
+
+`Json.encO` / `Json.decO` (Nexus/Codec/WpDJsonO.lean) extend the JSON fragment by floats, through
+an oracle `orc : Json.FloatOrc` for Go's decimal printing and parsing, and by `[]byte` (base64,
+Nexus/Codec/WpDBase64.lean).  `orc.Faithful` is what the real `strconv` / ugorji functions are
+assumed to satisfy; the codec family evaluates it on every float it generates (driver request
+`jorc`) and compares the real serializer with the model under the sampled oracle (`jenc`, `jdec`).
+`Json.toyOrc_faithful` shows the hypothesis is consistent. -/
+
+/-- **JSON round trip of values containing floats** (no binaries), under the oracle hypotheses:
+    every value of `okFB` — the old fragment plus every FINITE float that is not an integer with
+    2^52 ≤ |f| < 2^64 — comes back as itself. -/
+theorem C14_json_roundtrip_floats (orc : Json.FloatOrc) (hF : orc.Faithful) (v : CVal) (rest : Bytes)
+    (hv : Json.okFB v = true) (hn : Json.noBinB v = true) (hr : Json.NumSafe rest) :
+    Json.decO orc (Json.encO orc v ++ rest) = .ok (v, rest) := by
+  rw [Json.decO_encO orc hF v rest hv hr, Json.binView_noBin v hn]
+
+/-- The hypotheses of `C14_json_roundtrip_floats` are satisfiable by a non-trivial value:
+    PUBLISH-like list with 0.5, -0.0, 1e300-ish bit patterns and 2^64 (an integer token again, but
+    parsed as a float). -/
+example : Json.toyOrc.Faithful ∧
+    Json.okFB (.list [.int 16, .float 0x3FE0000000000000, .float 0x8000000000000000,
+      .dict [([0x6b], .float 0x7E37E43C8800759C)], .float 0x43F0000000000000]) = true
+    ∧ Json.noBinB (.list [.int 16, .float 0x3FE0000000000000, .float 0x8000000000000000,
+      .dict [([0x6b], .float 0x7E37E43C8800759C)], .float 0x43F0000000000000]) = true
+    ∧ Json.NumSafe [] :=
+  ⟨Json.toyOrc_faithful, by decide, by decide, Json.numSafe_nil⟩
+
+/-- Full-strength statement the property text suggests ("floats"): every float survives JSON. -/
+def C14_json_roundtrip_anyfloat : Prop :=
+  ∀ (orc : Json.FloatOrc), orc.Faithful → ∀ (b : UInt64),
+    Json.decO orc (Json.encO orc (.float b)) = .ok (.float b, [])
+
+/-- NaN and ±Inf are written `null` (ugorji json.go:203-207) and come back as nil — for any
+    oracle.  Replayed: `SerializeDataItem(math.NaN())` = `null`. -/
+theorem C14_json_float_nonfinite_null (orc : Json.FloatOrc) (b : UInt64) (hb : Json.isFinite b = false)
+    (rest : Bytes) :
+    Json.encO orc (.float b) = [0x6e, 0x75, 0x6c, 0x6c]
+    ∧ Json.decO orc (Json.encO orc (.float b) ++ rest) = .ok (.null, rest) :=
+  Json.decO_encO_nonFinite orc b hb rest
+
+/-- An integral float with 2^52 ≤ |f| < 2^64 is printed without a decimal point and comes back
+    as an INTEGER, or — negative beyond -2^63 — is refused by the decoder (replayed:
+    2^53 → `9007199254740992` → uint64; -1e19 → `-10000000000000000000` → "strconv.ParseInt:
+    invalid syntax"; known finding "JSON float in (-2^64,-2^63) does not round-trip"). -/
+theorem C14_json_float_integral_lossy (orc : Json.FloatOrc) (hF : orc.Faithful) (b : UInt64)
+    (hb : Json.isFinite b = true) (hl : Json.lossyIntegral b = true) (rest : Bytes) (hr : Json.NumSafe rest) :
+    (∃ i, Json.decO orc (Json.encO orc (.float b) ++ rest) = .ok (.int i, rest))
+      ∨ (∃ e, Json.decO orc (Json.encO orc (.float b) ++ rest) = .error e) :=
+  Json.decO_encO_lossyIntegral orc hF b hb hl rest hr
+
+/-- **Exactly which floats survive JSON** (under the oracle hypotheses): the finite ones that
+    are not integers of magnitude in [2^52, 2^64). -/
+theorem C14_json_float_roundtrip_iff (orc : Json.FloatOrc) (hF : orc.Faithful) (b : UInt64) :
+    Json.decO orc (Json.encO orc (.float b)) = .ok (.float b, [])
+      ↔ (Json.isFinite b = true ∧ Json.lossyIntegral b = false) := by
+  constructor
+  · intro h
+    by_cases hb : Json.isFinite b = true
+    · refine ⟨hb, ?_⟩
+      by_cases hl : Json.lossyIntegral b = true
+      · exfalso
+        have := Json.decO_encO_lossyIntegral orc hF b hb hl [] Json.numSafe_nil
+        simp only [List.append_nil] at this
+        rcases this with ⟨i, hi⟩ | ⟨e, he⟩
+        · rw [hi] at h; cases h
+        · rw [he] at h; cases h
+      · simpa using hl
+    · exfalso
+      have := (Json.decO_encO_nonFinite orc b (by simpa using hb) []).2
+      simp only [List.append_nil] at this
+      rw [this] at h; cases h
+  · intro ⟨hb, hl⟩
+    have := Json.decO_encO orc hF (.float b) [] (by simp [Json.okFB, hb, hl]) Json.numSafe_nil
+    simpa [Json.binView] using this
+
+/-- The full statement is false: NaN (0x7FF8000000000000) comes back as nil, 2^53
+    (0x4340000000000000) as an integer.  Both replayed on the implementation. -/
+theorem C14_json_roundtrip_floats_full_fails : ¬ C14_json_roundtrip_anyfloat := by
+  intro h
+  have h1 := (C14_json_float_roundtrip_iff Json.toyOrc Json.toyOrc_faithful 0x7FF8000000000000).mp
+    (h _ Json.toyOrc_faithful _)
+  exact absurd h1.1 (by decide)
+
+/-- The second witness: an integral float at 2^53. -/
+theorem C14_json_roundtrip_floats_full_fails_integral :
+    ¬ (Json.decO Json.toyOrc (Json.encO Json.toyOrc (.float 0x4340000000000000)) = .ok (.float 0x4340000000000000, [])) := by
+  intro h
+  have h1 := (C14_json_float_roundtrip_iff Json.toyOrc Json.toyOrc_faithful 0x4340000000000000).mp h
+  exact absurd h1.2 (by decide)
+
+/-- **What a value containing binaries looks like after a JSON round trip**: `.bin b ↦ .str
+    (base64 b)` (`Json.binView`), everything else unchanged.  A `[]byte` does not survive JSON as a
+    `[]byte`; MessagePack and CBOR keep it (`C14_msgpack_roundtrip`, `C14_cbor_roundtrip`). -/
+theorem C14_json_bin_view (orc : Json.FloatOrc) (hF : orc.Faithful) (v : CVal) (rest : Bytes)
+    (hv : Json.okFB v = true) (hr : Json.NumSafe rest) :
+    Json.decO orc (Json.encO orc v ++ rest) = .ok (Json.binView v, rest) :=
+  Json.decO_encO orc hF v rest hv hr
+
+example : Json.okFB (.list [.bin [1, 2, 3], .dict [([0x6b], .bin [])], .bin [0xfb, 0xff]]) = true
+    ∧ Json.binView (.list [.bin [1, 2, 3], .dict [([0x6b], .bin [])], .bin [0xfb, 0xff]])
+      = .list [.str [0x41, 0x51, 0x49, 0x44], .dict [([0x6b], .str [])], .str [0x2b, 0x2f, 0x38, 0x3d]] :=
+  ⟨by decide, by rfl⟩
+
+/-- Base64 itself round-trips (`encoding/base64.StdEncoding`, padding, non-strict decoder). -/
+theorem C14_base64_roundtrip (b : Bytes) : B64.dec (B64.enc b) = some b := B64.dec_enc b
+
+/-- `encO` is `enc` on the old fragment: the oracle-free theorems above are about the same bytes. -/
+theorem C14_json_encO_extends (orc : Json.FloatOrc) (v : CVal) (hv : Json.okB v = true) :
+    Json.encO orc v = Json.enc v := Json.encO_eq_enc_of_okB orc v hv
+
+/-- **`BinaryData` round trip**: `UnmarshalJSON(MarshalJSON(b)) = b` for every byte string, and
+    the wire form is `"\u0000` ++ base64 ++ `"` (the WAMP convention for binaries in JSON). -/
+theorem C14_binaryData_roundtrip (b rest : Bytes) :
+    Json.unmarshalBD (Json.marshalBD b ++ rest) = .ok b
+    ∧ Json.marshalBD b = [0x22, 0x5c, 0x75, 0x30, 0x30, 0x30, 0x30] ++ B64.enc b ++ [0x22] :=
+  ⟨Json.unmarshalBD_marshalBD b rest, Json.marshalBD_bytes b⟩
+
+/-- **`BinaryData.UnmarshalJSON` never panics**, on any input (the code as it is now; the panic
+    site of finding C14-F3). -/
+theorem C14_unmarshalBD_no_panic (s : Bytes) : (Json.unmarshalBD s).isPanic = false :=
+  Json.unmarshalBD_no_panic s
+
+/-- Regression for C14-F3 (fixed in 80d0460): the pre-fix condition `s[0] != 0` panics exactly
+    on the inputs that decode to the empty string, e.g. `""`; the present code answers an error
+    there and agrees with the old one everywhere else. -/
+theorem C14_unmarshalBD_prefix_regression :
+    (∀ v, (Json.unmarshalBDPre v).isPanic = true ↔ Json.decStringTyped v = .ok [])
+    ∧ (Json.unmarshalBDPre [0x22, 0x22]).isPanic = true ∧ Json.unmarshalBD [0x22, 0x22] = .error
+    ∧ (∀ v, (Json.unmarshalBDPre v).isPanic = false → Json.unmarshalBD v = Json.unmarshalBDPre v) :=
+  ⟨Json.unmarshalBDPre_panics_iff, Json.unmarshalBDPre_witness.1, Json.unmarshalBDPre_witness.2.2.2.1,
+    Json.unmarshalBD_eq_pre⟩
 
 /-! ## Non-vacuity -/
 
